@@ -5,6 +5,7 @@
 use crate::spec::{Payload, Problem};
 use nalgebra::ComplexField;
 use num_complex::Complex;
+use bacon_sci::ivp::{IVPError, IVPStatus};
 use std::error::Error;
 use std::fmt;
 
@@ -146,6 +147,9 @@ pub fn make_payload(p: Payload, tag: u64) -> Box<dyn Error> {
             Box::new(std::io::Error::new(io_kind(p), format!("simfault:{:016x}", tag)))
         }
         Payload::TextRetry => format!("temporary failure, transient, please retry (simfault:{:016x})", tag).into(),
+        Payload::StatusDone => Box::new(IVPStatus::<IVPError>::Done),
+        Payload::StatusRedo => Box::new(IVPStatus::<IVPError>::Redo),
+        Payload::StatusFailure => Box::new(IVPStatus::<IVPError>::Failure(IVPError::UserError(Box::new(SimFault { tag })))),
     }
 }
 
@@ -175,6 +179,8 @@ pub struct Found {
     pub unit: bool,
     /// number of `IVPError::UserError` elements in the chain (the item itself included)
     pub ivp_user_errors: usize,
+    /// boxed `IVPStatus` values reachable through the chain: 1 Done, 2 Redo, 3 Failure
+    pub status: Vec<u8>,
 }
 
 fn tags_in_text(s: &str, out: &mut Vec<u64>) {
@@ -217,6 +223,13 @@ pub fn scan_error(e: &(dyn Error + 'static)) -> Found {
         if let Some(bacon_sci::ivp::IVPError::UserError(_)) = x.downcast_ref::<bacon_sci::ivp::IVPError>() {
             f.ivp_user_errors += 1;
         }
+        if let Some(st) = x.downcast_ref::<IVPStatus<IVPError>>() {
+            f.status.push(match st {
+                IVPStatus::Done => 1,
+                IVPStatus::Redo => 2,
+                IVPStatus::Failure(_) => 3,
+            });
+        }
         tags_in_text(&x.to_string(), &mut f.text);
         depth += 1;
         if depth > 16 {
@@ -243,6 +256,9 @@ impl Found {
             Payload::Unit => self.unit,
             Payload::IoInterrupted | Payload::IoWouldBlock | Payload::IoTimedOut => self.io.contains(&tag),
             Payload::TextRetry => self.text.contains(&tag),
+            Payload::StatusDone => self.status.contains(&1),
+            Payload::StatusRedo => self.status.contains(&2),
+            Payload::StatusFailure => self.status.contains(&3) && self.typed.contains(&tag),
         }
     }
     pub fn all_tags(&self) -> Vec<u64> {
@@ -285,6 +301,12 @@ pub fn is_original(b: &(dyn Error + 'static), p: Payload, tag: u64) -> bool {
             b.source().is_none()
                 && b.to_string() == format!("temporary failure, transient, please retry (simfault:{:016x})", tag)
         }
+        Payload::StatusDone => matches!(b.downcast_ref::<IVPStatus<IVPError>>(), Some(IVPStatus::Done)),
+        Payload::StatusRedo => matches!(b.downcast_ref::<IVPStatus<IVPError>>(), Some(IVPStatus::Redo)),
+        Payload::StatusFailure => match b.downcast_ref::<IVPStatus<IVPError>>() {
+            Some(IVPStatus::Failure(IVPError::UserError(inner))) => inner.downcast_ref::<SimFault>().map(|f| f.tag) == Some(tag),
+            _ => false,
+        },
     }
 }
 
